@@ -5,6 +5,7 @@ mod attack;
 mod capi;
 mod c15;
 mod capisuite;
+mod effect;
 mod fmt;
 mod gen;
 mod interpose;
@@ -157,6 +158,7 @@ fn run_root_case(
     let kern = ops::kernel_line(&root, op, rflags, &labels);
 
     let before_snap = tree::snapshot(&top);
+    let pre_effect = if op.is_mutating() { Some(effect::prepare(&top, &root, op, &before_snap)) } else { None };
     let (outcome, log, pre_handle, fdt) = match op {
         Op::Reopen { path, nofollow, flags } => {
             let h = if *nofollow {
@@ -217,6 +219,10 @@ fn run_root_case(
     for d in tree::snapshot_diff(&before_snap, &after_snap) {
         s.push_str("snap ");
         s.push_str(&d);
+        s.push('\n');
+    }
+    if let Some(pre) = &pre_effect {
+        s.push_str(&effect::judge(&top, &root, op, &before_snap, &after_snap, &outcome, pre));
         s.push('\n');
     }
     if op.is_mutating() {
@@ -365,6 +371,10 @@ fn main() {
         "attack" => {
             let per: usize = arg_val(&args, "--per-case").and_then(|s| s.parse().ok()).unwrap_or(300);
             attack::suite_attack(&mut ctx, seed, n, per)
+        }
+        "race" => {
+            let op = arg_val(&args, "--op").unwrap_or_else(|| "mkdir_all".into());
+            attack::suite_race(&mut ctx, seed, n, &op)
         }
         "fault" => {
             let per: usize = arg_val(&args, "--per-case").and_then(|s| s.parse().ok()).unwrap_or(300);
